@@ -223,6 +223,31 @@ claim('C05',
       'SerialException (subclass of IOError) for I/O faults.',
       'DESIGN.md section 3, C05')
 
+claim('C06',
+      'abstract interpretation of both helper layers in the string-template domain: extracted '
+      'command-sequence tables vs the documented rows and vs the sibling layer; piecewise-affine '
+      'identity for the clamp; one-iteration interval case analysis of the pause loop; '
+      'zero/non-zero truth table for LM suppression',
+      'Decides for all argument values: D1 for each of 48 helpers (23 legacy, 25 EBB3) and each '
+      'presence pattern of its optional arguments, the sequence of texts handed to the transport '
+      '(templates with slots named by positional parameter index; legacy texts end in exactly '
+      'one CR, EBB3 texts carry none) equals the documented EBB command row - order of '
+      'arguments, constants, commas, number and order of commands; an optional argument that is '
+      'supplied appears whatever its value (a truthiness test forks the abstract path and is '
+      'reported: the zero-valued-argument clause). D2 thirteen legacy/EBB3 pairs emit equal '
+      'templates. D4 every EM resolution slot is identically clamp(arg,0,5). D5 timed pause, '
+      'both layers: the loop runs iff n>=1, each iteration emits exactly one SM,<d>,0,0 with d in '
+      '1..750 over every integer region of the remaining time, and the remainder decreases by '
+      'exactly d and stays >=0 (or d is the whole remainder and the loop ends), so the durations '
+      'sum to n; nothing is sent outside the loop. D6 doLowLevelMove is suppressed exactly when '
+      'neither axis can move, over all 64 zero/non-zero cases (tests on compound expressions are '
+      'explored on both branches). D7 no helper reaches a live transport without a port. Not '
+      'decided: that the documented rows are what the firmware expects (transcribed table).',
+      'Trusted: Python ast, str.format/f-string semantics as modelled in vf/interp.py, '
+      'vf/legacy.py, vf/ebb3.py, the SPEC rows in vf/props/c06.py (from the EBB command reference '
+      'quoted in the docstrings). Pause loops not in while form give exit 2 (cannot conclude).',
+      'DESIGN.md section 3, C06')
+
 
 def build():
     checks = []
